@@ -743,6 +743,8 @@ class Gen5:
         p = k.paths[0]
         self.do(["del", p[:-2], p[-2], {"o": self.anypath(k)} if rng.random() < 0.5 else {"s": k.name}], "delete")
         for ap, i, _, tid in dims:
+            if ap[:len(p)] == p:
+                continue                      # the descriptor went with its array
             if tid is not None and ents.get(tid) is k:
                 self.do(["dim_read", ap, i], "dim_read/dangling")
                 self.do(["dim_set_attr", ap, i, "unit", "mV"], "dim_set_attr/dangling")
@@ -831,6 +833,18 @@ def canon_dump(nodes):
     return out
 
 
+def _compare(ops, outs, model):
+    """storegen.compare, plus: a dimension / data op whose array or descriptor path does not resolve is
+    `bad` for the implementation runner and KeyError / IndexError (arrayAt / dimAt) in the model"""
+    diffs = []
+    for k, op, m, i in storegen.compare(ops, outs, model):
+        if (op[0].startswith("dim_") or op[0] == "da_write") and isinstance(i, dict) and "bad" in i \
+                and isinstance(m, dict) and m.get("err") in ("KeyError", "IndexError"):
+            continue
+        diffs.append((k, op, m, i))
+    return diffs
+
+
 def _canon_dumps(ops, outs):
     return [({"ok": canon_dump(o["ok"])} if op == ["dump"] and isinstance(o, dict) and "ok" in o else o)
             for op, o in zip(ops, outs)]
@@ -849,7 +863,7 @@ def correspondence(ctx):
         mops = [["noop"] if op == ["reopen"] else op for op in hist]
         outs = _canon_dumps(mops, replay_history(ctx, hist, str(ci)))
         model = _canon_dumps(mops, core.run_driver(PROP, [["reset"]] + mops)[1:])
-        for k, op, m, i in storegen.compare(mops, outs, model):
+        for k, op, m, i in _compare(mops, outs, model):
             disagreements.append(Disagreement({"corpus": ci, "index": k, "op": op, "prefix": hist[:k + 1]}, m, i))
         total += len(hist)
     for h in range(n_hist):
@@ -865,7 +879,7 @@ def correspondence(ctx):
             continue
         outs = _canon_dumps(ops, outs)
         model = _canon_dumps(ops, core.run_driver(PROP, [["reset"]] + ops)[1:])
-        for k, op, m, i in storegen.compare(ops, outs, model):
+        for k, op, m, i in _compare(ops, outs, model):
             disagreements.append(Disagreement({"history": h, "index": k, "op": op,
                                                "prefix": ops[:k + 1] if k < 400 else None}, m, i))
         total += len(ops)
